@@ -64,7 +64,7 @@ PLAN = {
 }
 
 RULES = {
-    "C01": "six generators (header-state product exhaustive over pairs/triples, grammar lines, corpus mutation, raw bytes, messages::parse x every type x every length 0..130, unarmor exhaustive to length 2) each call wrapped in catch_unwind + heartbeat; a class is (build, generator, outcome kind, decode flag) plus long groups, huge payloads, UTF-8 text, wide header numbers; Miri (none cfg) in quick, Miri x3 + ASan + region coverage in thorough; every text field under the text shapes of C13 (padding mixes, one character on padding, dictionary words cut off after every character)",
+    "C01": "six generators (header-state product exhaustive over pairs/triples, grammar lines, corpus mutation, raw bytes, messages::parse x every type x every length 0..130, unarmor exhaustive to length 2) each call wrapped in catch_unwind + heartbeat; a class is (build, generator, outcome kind, decode flag) plus long groups, huge payloads, UTF-8 text, wide header numbers; Miri (none cfg) in quick, Miri x3 + ASan + region coverage in thorough; every text field under the text shapes of C13 (padding mixes, one character on padding, dictionary words cut off after every character); middle fragments of 8.5 to 17 million characters (34 M thorough) in 255-fragment groups",
     "C02": "bodies x all 256 transmitted checksum values x hex styles; every single-byte corruption at every position of the corpus; perfect next fragments with wrong checksum; a class is (build, line shape, parser state, corruption position class, reference verdict); bodies of up to 131 072 bytes (1 M thorough) in channel / payload / tag block with whole-body, power-of-two-prefix and off-by-one-bit checksums; wrong-checksum openers; std build: single lines of 2^28 / 2^29 bytes (to 2^32 thorough) with pseudo-random bulk",
     "C03": "all byte strings of length <= 2 x fill 0..5 exhaustively, length 3 over alphabet + boundary bytes, every length 5..1000 with structured contents; a class is (build, len mod 4, fill, first-invalid position class, last character class, over 512); lengths up to 524 289 characters (2.8 M and one 2^31 probe thorough); single invalid byte at power-of-two positions of strings up to 70 000; 255 .. 262 144 invalid bytes per string (2^24, 2^32 thorough) in four layouts",
     "C04": "per layout branch: per-field value sweeps (exhaustive for narrow fields, bit-walks/edges/random for wide), adjacent-pair corner sweeps, joint random, repository vectors with fields overwritten, all other bits re-randomised each case, three delivery routes; a class is (build, branch, field, value stratum, route); equal-pair sweeps; joint sweeps of the 20-bit month-day-hour-minute blocks (type 5 ETA fully; UTC of types 4 / 11 a quarter quick, fully thorough) and of the 17-bit hour-minute-second blocks",
@@ -78,7 +78,7 @@ RULES = {
     "C12": "every code of every enumerated field in every branch carrying it x random contexts, injectivity check on observed renderings, direct ShipType conversions for 0..255; a class is (build, branch, field, code); pairwise == of decoded codes; all-not-available context under every special sender number",
     "C13": "per text field: all 64 values at every position, 64^2 pairs at first/last/middle pairs, trim shapes (runs of space/@, order-sensitive tails, interior padding), random strings; safety texts at every length; a class is (build, branch, field, shape); padding runs at every power of two 64..8192 +-1 in over-long texts; fields of padding characters only in every mix, one character on a padding background at every position, dictionary words (locating-device texts, signal words, N/A ...) cut off after every character",
     "C14": "for every supported type every transmitted bit length 0..max+66 (every characters x fill pair) x random and all-ones contents by three routes, plus layout branches at legal lengths; a class is (build, type, characters, fill, reference verdict, outcome); element-count windows (2^8 / 2^16 elements of 6/8/30/32 bits)",
-    "C15": "types 6/8/17: every transmitted length from below the header to beyond the protocol maximum x four content kinds (position-coded, ones, alternating, random) x routes incl. multi-fragment, header field sweeps; a class is (build, type, data bytes, fill, content, outcome); record-structured payloads (records of 2..12 bytes from a pool incl. all-zero / all-one, repeated, at every alignment)",
+    "C15": "types 6/8/17: every transmitted length from below the header to beyond the protocol maximum x four content kinds (position-coded, ones, alternating, random) x routes incl. multi-fragment, header field sweeps; a class is (build, type, data bytes, fill, content, outcome); record-structured payloads (records of 2..12 bytes from a pool incl. all-zero / all-one, repeated, at every alignment); echo tails (a group X+P right after P was decoded on its own)",
     "C16": "all 2^19 communication states for types 1,2,3,4,11 and all 2^20 selector+state values for types 9,18, other bits random; a class is (build, type, selector, kind/time-out); ~750 notable states x both selectors x 96 (1 024) random contexts; every state once more in the 'no position fix' context (all optional values not available, time stamp 60..63)",
     "C17": "every history of length 4 (5 thorough) over the 20-symbol alphabet and random histories: each inert line removed in turn, all other outcomes and a probe suite compared; interleaved parser instances vs isolated runs; a class is (build, state class at removal, inert kind, position); runs of up to 131 073 inert lines (rejected or accepted unfragmented) inside a group; rejected fragments of up to 16 MiB; one constructor per comparison",
     "C18": "identical seeded call sequence (lines on long-lived parsers, messages, unarmor, capacity edges) logged in std, alloc and none builds and diffed offline; a class is (capacity class, std outcome kind, none outcome kind); every text field within capacity under the text shapes of C13",
